@@ -55,8 +55,9 @@ theorem gen_write_safe (d l : Nat) : writeRejects d l = false → d ≤ l := by
 theorem gen_write_accepts (d l : Nat) : d ≤ l → writeRejects d l = false := by
   intro h
   unfold writeRejects
-  simp
-  omega
+  first
+    | (simp; done)
+    | (simp; omega)
 
 theorem ulen_nonneg {r : Int} (h0 : 0 ≤ r) (h1 : r < 9223372036854775808) :
     ulen r = r.toNat ∧ r.toNat < 9223372036854775808 := by
@@ -194,6 +195,64 @@ theorem seq_inv (min max : Nat) (h2 : max < 9223372036854775808) :
         rcases List.mem_cons.mp hq with rfl | hq
         · simp at hsp
         · exact IH.2.2.2 q hq sp hsp
+
+/-- all regions of a sequential history: each is one of the kernel's answers or lies in `[off, max]`; pairwise disjoint
+    when the kernel's answers are pairwise disjoint and outside `[min, max)` -/
+theorem seq_all_disjoint (min max : Nat) (h2 : max < 9223372036854775808) :
+    ∀ (reqs : List (Int × Mmap)) (off : Nat), min ≤ off → off ≤ max → (∀ r ∈ reqs, r.1 < 9223372036854775808) →
+      (kernelAnswers reqs).Pairwise disj → (∀ c ∈ kernelAnswers reqs, c.1 + c.2 ≤ min ∨ max ≤ c.1) →
+      (allRegions (runSeq off min max reqs)).Pairwise disj ∧
+      (∀ c ∈ allRegions (runSeq off min max reqs), c ∈ kernelAnswers reqs ∨ (off ≤ c.1 ∧ c.1 + c.2 ≤ max)) := by
+  intro reqs
+  induction reqs with
+  | nil => intro off _ _ _ _ _; simp [runSeq, allRegions]
+  | cons q rest ih =>
+    intro off h0 h1 hl hk ho
+    obtain ⟨len, mm⟩ := q
+    have hlen : len < 9223372036854775808 := hl (len, mm) (List.mem_cons_self)
+    have hrest : ∀ r ∈ rest, r.1 < 9223372036854775808 := fun r hr => hl r (List.mem_cons_of_mem _ hr)
+    rcases acquire_cases mm off min max len h1 h2 hlen with ⟨a, hm, e⟩ | ⟨hm, _, hfit, e⟩ | ⟨hm, o, ho1, ho2, e⟩
+    · subst hm
+      simp only [kernelAnswers, List.pairwise_cons] at hk
+      have ho' : ∀ c ∈ kernelAnswers rest, c.1 + c.2 ≤ min ∨ max ≤ c.1 := fun c hc => ho c (by simp only [kernelAnswers]; exact List.mem_cons_of_mem _ hc)
+      have hhead := ho (a, len.toNat) (by simp only [kernelAnswers]; exact List.mem_cons_self)
+      have IH := ih off h0 h1 hrest hk.2 ho'
+      simp only [runSeq, e, allRegions, kernelAnswers]
+      refine ⟨List.pairwise_cons.mpr ⟨?_, IH.1⟩, ?_⟩
+      · intro c hc
+        rcases IH.2 c hc with hin | hb
+        · exact hk.1 c hin
+        · unfold disj; simp only at hhead ⊢; omega
+      · intro c hc
+        rcases List.mem_cons.mp hc with rfl | hc
+        · left; exact List.mem_cons_self
+        · rcases IH.2 c hc with hin | hb
+          · left; exact List.mem_cons_of_mem _ hin
+          · right; exact hb
+    · subst hm
+      simp only [kernelAnswers] at hk ho
+      have IH := ih (off + len.toNat) (by omega) hfit hrest hk ho
+      simp only [runSeq, e, allRegions, kernelAnswers]
+      refine ⟨List.pairwise_cons.mpr ⟨?_, IH.1⟩, ?_⟩
+      · intro c hc
+        rcases IH.2 c hc with hin | hb
+        · have := ho c hin; unfold disj; simp only; omega
+        · unfold disj; simp only; omega
+      · intro c hc
+        rcases List.mem_cons.mp hc with rfl | hc
+        · right; simp only; omega
+        · rcases IH.2 c hc with hin | hb
+          · left; exact hin
+          · right; omega
+    · subst hm
+      simp only [kernelAnswers] at hk ho
+      have IH := ih o (by omega) ho2 hrest hk ho
+      simp only [runSeq, e, allRegions, kernelAnswers]
+      refine ⟨IH.1, ?_⟩
+      intro c hc
+      rcases IH.2 c hc with hin | hb
+      · left; exact hin
+      · right; omega
 
 /-! ### every schedule of concurrent requesters -/
 
